@@ -44,6 +44,8 @@ type Chaos struct {
 	calls   map[string]int
 	// Fail decides whether the n-th (1-based) call of op is failed.
 	Fail func(op string, n int) bool
+	// FailCall, if set, also sees what the call is about (key, argument).
+	FailCall func(op, key, arg string, n int) bool
 }
 
 func NewChaos(inner store.Store, seed int64) *Chaos {
@@ -78,6 +80,9 @@ func (c *Chaos) enter(op, key, arg string) (idx int, fail bool) {
 	c.calls[op]++
 	n := c.calls[op]
 	if c.Fail != nil && c.Fail(op, n) {
+		fail = true
+	}
+	if c.FailCall != nil && c.FailCall(op, key, arg, n) {
 		fail = true
 	}
 	var wait time.Duration
